@@ -1006,16 +1006,30 @@ func runFamily(c *vh.Ctx, e *env, idx int) {
 		return len(p), nil
 	})
 	t0 := int64(1700000000 + r.Intn(100000))
-	cfgs := []*tls.Config{{Rand: rd, Time: func() time.Time { return time.Unix(t0, 0) }}}
-	expect := [][][32]byte{nil} // keys the runner expects to be in force on each member
+	now := t0
+	cfgs := []*tls.Config{{Rand: rd, Time: func() time.Time { return time.Unix(now, 0) }}}
+	// What the runner expects to be in force on each member, from the documentation of the three key sources:
+	// SetSessionTicketKeys -> exactly that list, whatever was configured before; the SessionTicketKey field set by the
+	// application before first use (and no list set) -> the key derived from the field; otherwise (automatic keys, field
+	// changed after use) nil = no expectation, the model alone judges.
+	expect := [][][32]byte{nil}
+	used := []bool{false}      // ticketKeys has run on the member
+	installed := []bool{false} // the member's sessionTicketKeys are populated (explicit list, or legacy key after first use)
 	var ops, kinds []string
 	var tickets [][]byte
 	type sealed struct {
-		t   []byte
-		key [32]byte
-		st  []byte
+		t     []byte
+		key   [32]byte
+		known bool // the 32 bytes the sealing key derives from are known
+		st    []byte
 	}
 	newest := []*sealed{nil}
+	family := func() string {
+		if len(cfgs) > 1 {
+			return "clone-independence"
+		}
+		return "keys-in-force"
+	}
 	setKeys := func(i int) {
 		n := 1 + r.Intn(3)
 		if len(expect[i]) > 0 && r.Intn(2) == 0 {
@@ -1029,13 +1043,35 @@ func runFamily(c *vh.Ctx, e *env, idx int) {
 			it = append(it, vh.Bytes(ks[j][:]))
 		}
 		cfgs[i].SetSessionTicketKeys(ks)
-		expect[i] = ks
+		expect[i], installed[i] = ks, true
 		ops = append(ops, fmt.Sprintf("FOn %d (HSetKeys %s false)", i, vh.List(it)))
 		kinds = append(kinds, fmt.Sprintf("set%d", i))
+	}
+	setLegacy := func(i int) {
+		b := key32(r)
+		cands = append(cands, b)
+		cfgs[i].SessionTicketKey = b
+		switch {
+		case installed[i]: // keys already populated: the deprecated field is not consulted any more
+		case !used[i]:
+			expect[i] = [][32]byte{b}
+		default:
+			expect[i] = nil
+		}
+		ops = append(ops, fmt.Sprintf("FOn %d (HSetLegacy %s)", i, vh.Bytes(b[:])))
+		kinds = append(kinds, fmt.Sprintf("legacy%d", i))
+	}
+	advance := func() {
+		dt := []int64{3600, 86400, 86401, 3 * 86400, 604800, 8 * 86400}[r.Intn(6)]
+		now += dt
+		ops = append(ops, fmt.Sprintf("FOn 0 (HAdvance %d%%Z)", dt))
+		kinds = append(kinds, "advance")
 	}
 	clone := func(i int) {
 		cfgs = append(cfgs, cfgs[i].Clone())
 		expect = append(expect, expect[i])
+		used = append(used, used[i])
+		installed = append(installed, installed[i])
 		newest = append(newest, nil)
 		ops = append(ops, fmt.Sprintf("FClone %d", i))
 		kinds = append(kinds, fmt.Sprintf("clone%d", i))
@@ -1060,13 +1096,25 @@ func runFamily(c *vh.Ctx, e *env, idx int) {
 				c.Fail("family-seal", "EncryptTicket fails on a member of a Config family", map[string]any{"history": kinds, "member": i}, fmt.Sprint(err), "ticket")
 				return false
 			}
+			used[i] = true
+			installed[i] = installed[i] || expect[i] != nil
 			tickets = append(tickets, t)
-			newest[i] = &sealed{t, expect[i][0], g.refBytes()}
-			// the ticket must be sealed under the first key last set on THIS member
-			if want := sealRef(expect[i][0], t[:16], g.refBytes()); !bytes.Equal(t, want) {
-				c.Fail(fmt.Sprintf("clone-independence/seal/%s", step), "a member of a Config family does not seal with the first key last set on it (another member's rotation leaked into it)",
-					map[string]any{"history": kinds, "member": i}, vh.Hex(t), vh.Hex(want))
-				return false
+			sl := &sealed{t: t, st: g.refBytes()}
+			// which 32 key bytes sealed it? (independent of what the runner expects: try every key source seen so far)
+			for _, k := range cands {
+				if bytes.Equal(sealRef(k, t[:16], sl.st), t) {
+					sl.key, sl.known = k, true
+					break
+				}
+			}
+			newest[i] = sl
+			// the ticket must be sealed under the first key in force on THIS member
+			if expect[i] != nil {
+				if want := sealRef(expect[i][0], t[:16], sl.st); !bytes.Equal(t, want) {
+					c.Fail(fmt.Sprintf("%s/seal/%s", family(), step), "a Config does not seal with the first key in force on it (the list last given to SetSessionTicketKeys on THIS config, else the key derived from its SessionTicketKey field): an earlier key source or another member of its Clone family leaked into it",
+						map[string]any{"history": kinds, "member": i, "sealed_with_known_key": sl.known}, vh.Hex(t), vh.Hex(want))
+					return false
+				}
 			}
 		}
 		for i, cfg := range cfgs {
@@ -1080,6 +1128,9 @@ func runFamily(c *vh.Ctx, e *env, idx int) {
 					obs = keep.hold(s, "family")
 				}
 				ops = append(ops, fmt.Sprintf("FOn %d (HOpen %s %s)", i, vh.Bytes(sl.t), obs))
+				if expect[i] == nil || !sl.known {
+					continue // automatic keys: the model alone judges
+				}
 				has := false
 				for _, k := range expect[i] {
 					has = has || k == sl.key
@@ -1090,16 +1141,16 @@ func runFamily(c *vh.Ctx, e *env, idx int) {
 				}
 				in := map[string]any{"history": kinds, "opening_member": i, "sealing_member": j, "ticket": vh.Hex(sl.t)}
 				if has && s == nil {
-					c.Fail(fmt.Sprintf("clone-independence/open-refused/%s", step), "a Config no longer opens a ticket sealed under a key that is still configured on it (keys changed by a rotation on another member of its Clone family)", in, got, "state")
+					c.Fail(fmt.Sprintf("%s/open-refused/%s", family(), step), "a Config no longer opens a ticket sealed under a key that is in force on it", in, got, "state")
 					return false
 				}
 				if !has && s != nil {
-					c.Fail(fmt.Sprintf("clone-independence/open-foreign/%s", step), "a Config opens a ticket sealed under a key that was never configured on it (keys of a Clone relative leaked)", in, got, "nil")
+					c.Fail(fmt.Sprintf("%s/open-foreign/%s", family(), step), "a Config opens a ticket sealed under a key that is not (or no longer) configured on it: an earlier key source or a Clone relative leaked into it", in, got, "nil")
 					return false
 				}
 				if has && s != nil {
 					if b, _ := s.Bytes(); !bytes.Equal(b, sl.st) {
-						c.Fail("clone-independence/state", "state differs after a family round trip", in, vh.Hex(b), vh.Hex(sl.st))
+						c.Fail(family()+"/state", "state differs after a round trip", in, vh.Hex(b), vh.Hex(sl.st))
 						return false
 					}
 				}
@@ -1107,15 +1158,37 @@ func runFamily(c *vh.Ctx, e *env, idx int) {
 		}
 		return true
 	}
-	setKeys(0)
+	// the three ways keys get configured, in every order: which source comes first depends on the history index
+	first := "initial"
+	switch idx % 4 {
+	case 0:
+		setKeys(0)
+	case 1:
+		setLegacy(0)
+		first = "legacy-field-first"
+	case 2:
+		first = "automatic-keys-first"
+	case 3:
+		setLegacy(0)
+		setKeys(0) // list given before the field was ever consulted
+		first = "legacy-field-then-list-before-use"
+	}
 	steps := 3 + r.Intn(3)
-	ok := exercise("initial")
+	ok := exercise(first)
 	for s := 0; ok && s < steps; s++ {
 		step := ""
-		if len(cfgs) < 3 && (r.Intn(2) == 0 || len(cfgs) == 1) {
+		x := r.Intn(10)
+		switch {
+		case len(cfgs) < 3 && (x < 3 || (len(cfgs) == 1 && s == 1)):
 			clone(r.Intn(len(cfgs)))
 			step = "after-clone"
-		} else {
+		case x == 3:
+			setLegacy(r.Intn(len(cfgs)))
+			step = "after-setting-legacy-field"
+		case x == 4 && idx%4 != 0:
+			advance()
+			step = "after-clock-advance"
+		default:
 			i := r.Intn(len(cfgs))
 			setKeys(i)
 			step = "after-rotation"
